@@ -777,11 +777,12 @@ class PDFDocument:
                 continue
             # If there's an encryption info, remember it.
             if "Encrypt" in trailer:
+                id_value: Sequence[bytes] = ()
                 if "ID" in trailer:
-                    id_value = list_value(trailer["ID"])
-                else:
-                    # Some documents may not have a /ID, use two empty
-                    # byte strings instead. Solves
+                    id_value = [str_value(v) for v in list_value(trailer["ID"])]
+                if not id_value:
+                    # Some documents may not have a /ID (or an empty
+                    # one), use two empty byte strings instead. Solves
                     # https://github.com/pdfminer/pdfminer.six/issues/594
                     id_value = (b"", b"")
                 self.encryption = (id_value, dict_value(trailer["Encrypt"]))
